@@ -10,6 +10,7 @@ package main
 // reachable from any binding, collection or closure.
 
 import (
+	"fmt"
 	"go/token"
 	"go/types"
 	"strings"
@@ -286,6 +287,7 @@ func checkC02(w *World, r *Report) {
 		}
 		return false
 	})
+	builtinBindsRule(w, r, "C02.binding-writers")
 	e := newEngine(w)
 	nWrites := ruleContainerWrites(w, r, e, "C02.write", func(fn *ssa.Function) bool { return runtimePkg(fnPkgPath(fn)) }, true)
 	r.floor("C02.write", "container write sites in the library", nWrites, 40)
@@ -894,4 +896,50 @@ func updatesRegistry(f *ssa.Function) bool {
 		}
 	}
 	return false
+}
+
+// builtinBindsRule: bindings are made by the special forms (def, defmacro, the scopes let/fn/catch open) and by
+// the loaders that register builtins - never by a builtin while a program runs. A builtin that binds or rebinds a
+// name in a scope it was handed (a call frame it keeps for the next element, say) changes what closures over
+// that scope see, with no def in sight.
+func builtinBindsRule(w *World, r *Report, rule string) {
+	r.rule(rule, "no registered builtin of the library (nor a function or closure of its package it is built from) calls Set, SetNT, Update or Remove on an environment: a binding read twice with no intervening def is the same both times, also when a closure captured the scope in between")
+	seen := map[*ssa.Function]bool{}
+	n := 0
+	for _, root := range w.registeredFuncs() {
+		if !strings.HasPrefix(fnPkgPath(root), modPath+"/lib/") {
+			continue
+		}
+		var fns []*ssa.Function
+		for _, f := range w.withPkgHelpers(root) {
+			fns = append(fns, f)
+			fns = append(fns, allAnon(f)...)
+		}
+		for _, f := range fns {
+			if seen[f] || isTestFunc(w, f) {
+				continue
+			}
+			seen[f] = true
+			for _, b := range f.Blocks {
+				for _, in := range b.Instrs {
+					ci, ok := in.(ssa.CallInstruction)
+					if !ok || !ci.Common().IsInvoke() {
+						continue
+					}
+					switch ci.Common().Method.Name() {
+					case "Set", "SetNT", "Update", "Remove", "RemoveNT":
+					default:
+						continue
+					}
+					if !strings.HasSuffix(ci.Common().Value.Type().String(), "types.EnvType") {
+						continue
+					}
+					n++
+					r.bad(rule, f, "binding written by a builtin: "+ci.Common().Method.Name(), in.Pos(), "a builtin changes a binding of a scope while the program runs: closures (and futures) that captured that scope see the name change without any def")
+				}
+			}
+		}
+	}
+	r.add(rule, nil, "functions of the registered builtins examined", token.NoPos, "ok", fmt.Sprintf("%d functions, %d binding writes", len(seen), n))
+	r.floor(rule, "functions of the registered builtins", len(seen), 50)
 }
